@@ -17,7 +17,7 @@ RULE = ('cases = (object body incl. annotations of this operator / of other Kopf
         'field and the patch is non-empty; a diff pair is non-trivial iff the diff has >= 2 items or nests >= 2 levels; '
         'distinct after canonicalisation')
 
-HEADER = fw.STD_HEADER + ('From KV Require Import Base.Dicts Model.Keys Model.Storage Model.Diff Model.Essence Model.OwnWrites.\n'
+HEADER = fw.STD_HEADER + ('From KV Require Import Base.Dicts Model.Keys Model.Storage Model.Diff Model.Essence Model.OwnWrites Model.Results.\n'
                           'Definition ond_eqb (x y : option json * json * list ditem) : bool :=\n'
                           '  ojeqb (fst (fst x)) (fst (fst y)) && jeqb (snd (fst x)) (snd (fst y)) && diff_sameb (snd x) (snd y).\n'
                           'Definition adj_eqb (x y : json * json * list ditem) : bool :=\n'
@@ -246,7 +246,21 @@ def related(p: tuple, q: tuple) -> bool:
 
 
 FIELD_CHOICES = [[], [], [], [['status', 'x']], [['spec', 'a']], [['spec']], [['status', 'x'], ['spec', 'a', 'b']],
-                 [['metadata', 'labels', 'tier']], [['status', 'cond'], ['spec', 'field']], [['data']]]
+                 [['metadata', 'labels', 'tier']], [['status', 'cond'], ['spec', 'field']], [['data']],
+                 [['spec', 'struct', 'other']], [['spec', 'struct', 'other'], ['status', 'x']]]
+
+
+def field_path_kind(raw: Any, f: tuple) -> str:
+    """How a handler's field path meets the object: resolves / absent / through-nonmapping (a value on the way, incl.
+    null, is not a mapping: dicts.cherrypick raises TypeError there — pinned by kopf's tests, recorded as an observation)."""
+    v = raw
+    for k in f:
+        if not isinstance(v, dict):
+            return 'through-nonmapping'
+        if k not in v:
+            return 'absent'
+        v = v[k]
+    return 'resolves'
 
 
 def gen_operator(r: Any) -> Operator:
@@ -312,6 +326,8 @@ def gen_body(r: Any, G: g.Gen, op: Operator, others: list[Operator]) -> tuple[di
     raw = G.body(status=status)
     if isinstance(raw.get('spec'), dict) and r.random() < 0.5:
         raw['spec'].update({'a': r.choice([1, {'b': 2, 'c': None}, 'v']), 'field': r.choice(['v', 'w', 5]), 'ignored': 'i'})
+    if isinstance(raw.get('spec'), dict) and (r.random() < 0.25 or ('spec', 'struct', 'other') in op.fields and r.random() < 0.8):
+        raw['spec']['struct'] = r.choice([None, 'str', {'other': 1}, {'other': {'deep': [2]}}, [1], 5, {}])
     if r.random() < 0.4 and isinstance(raw.get('metadata'), dict):
         nm = near_miss_keys(all_prefixes(op.describe()) + [q for o in others for q in all_prefixes(o.describe())])
         an = raw['metadata'].setdefault('annotations', {})
@@ -635,6 +651,38 @@ def check_finalizers(ctx: fw.Ctx, op: Operator, raw: dict) -> list[tuple[str, di
     return outs
 
 
+RESULTS = [None, 'done', 5, True, {'k': 'v'}, {'a': {'b': 1}, 'n': None}, [1, 2], {}, '']
+
+
+def check_results(ctx: fw.Ctx, op: Operator, raw: dict, r: Any, G: g.Gen) -> tuple[tuple[str, Any], dict]:
+    """deliver_results on a patch that may already carry this cycle's writes; its effect never reaches the essence."""
+    from kopf._cogs.structs import patches
+    from kopf._core.actions import execution, progression
+    hids = [r.choice(['create_fn', 'upd', 'fld0', 'upd/spec.a']) for _ in range(r.choice([1, 2, 3]))]
+    outcomes = [(h, r.random() < 0.85, r.choice(RESULTS)) for h in dict.fromkeys(hids)]
+    kind0, p_in = op.own_write(raw, [('store', hids[0], G.record())]) if r.random() < 0.5 else ('ok', {})
+    if kind0 != 'ok' or p_in is None:
+        p_in = {}
+    if r.random() < 0.15:
+        p_in = {**p_in, 'status': r.choice([None, 'oops', {'create_fn': 'str'}, {'create_fn': {'old': 1}}])}
+    patch = patches.Patch(copy.deepcopy(p_in))
+    outs = {h: execution.Outcome(final=True, result=copy.deepcopy(v) if ok_ else None, exception=None if ok_ else RuntimeError('boom'))
+            for h, ok_, v in outcomes}
+    kres, _ = canon.run_res(lambda: progression.deliver_results(outcomes=outs, patch=patch))
+    pres = copy.deepcopy(dict(patch)) if kres == 'ok' else None
+    data = {'operator': op.describe(), 'body': raw, 'outcomes': [[h, ok_, v] for h, ok_, v in outcomes], 'patch_in': p_in}
+    for h, ok_, v in outcomes:
+        ctx.count('result_kind', 'raised' if not ok_ else 'None' if v is None else 'mapping' if isinstance(v, dict) else 'scalar/list')
+    ctx.count('results_outcome', kres)
+    # proviso: no handler field reaches into status.<handler id>
+    if kres == 'ok' and pres and not any(related(f, ('status', h)) for f in op.fields for h, _, _ in outcomes):
+        k0, e0 = op.essence(raw)
+        k1, e1 = op.essence(canon.merge7386(raw, {'status': pres.get('status')}) if 'status' in pres else raw)
+        if k0 == 'ok' and (k1 != 'ok' or not strict_eq(e0, e1)):
+            ctx.fail("delivering the handlers' results changes the essence", data, observed=e1, expected=e0, sig='results-visible')
+    return (kres, pres), data
+
+
 def check_system(ctx: fw.Ctx, op: Operator, raw: dict, r: Any) -> None:
     b, what = mutate_system(r, raw)
     if is_drs(b) != is_drs(raw):
@@ -788,14 +836,14 @@ def run(ctx: fw.Ctx) -> int:
     ctx.matchers = {'F3': match_f3, 'F41': match_f41}
 
     ctx.proofs()
-    ok, logtxt = fw.build_models(['Model/Diff.v', 'Model/Essence.v', 'Model/OwnWrites.v'])
+    ok, logtxt = fw.build_models(['Model/Diff.v', 'Model/Essence.v', 'Model/OwnWrites.v', 'Model/Results.v'])
     if not ok:
         ctx.correspondence_break('model build', logtxt[-1500:])
         return ctx.finish(RULE)
 
     G = g.Gen(ctx.rng)
     r = ctx.rng
-    D: dict[str, list[fw.Case]] = {k: [] for k in ('diff', 'reduce', 'build', 'essence', 'adjust', 'own', 'fin')}
+    D: dict[str, list[fw.Case]] = {k: [] for k in ('diff', 'reduce', 'build', 'essence', 'adjust', 'own', 'fin', 'results')}
     skipped = 0
     tie_on = True     # thorough: the monitors sweep a larger volume than the (costly) Coq evaluation of the ties
 
@@ -820,8 +868,8 @@ def run(ctx: fw.Ctx) -> int:
         ctx.count('corpus', c['kind'])
 
     # ================= diff / reduce =================
-    n_pairs = ctx.scale(1000, 40000)
-    tie_pairs = ctx.scale(1000, 8000)
+    n_pairs = ctx.scale(800, 40000)
+    tie_pairs = ctx.scale(800, 8000)
     for i in range(n_pairs):
         a = G.obj(3, nkeys=(1, 2, 3, 4)) if r.random() < 0.85 else G.json(3)
         b = mutate_json(r, G, a) if r.random() < 0.85 else G.json(3)
@@ -902,12 +950,12 @@ def run(ctx: fw.Ctx) -> int:
         check_diff_pair(ctx, a, b, src)
         for path in [(), ('x',), ('x', 'y')]:
             check_reduce(ctx, a, b, path)
-    for a, b, src in (exhaustive if ctx.thorough else r.sample(exhaustive, 600)):
+    for a, b, src in (exhaustive if ctx.thorough else r.sample(exhaustive, 300)):
         add_diff_case(a, b, src, 'full')
 
     # ================= essence: build, clear o build, old/new/diff, own writes, other operators =================
-    n = ctx.scale(400, 8000)
-    tie_bodies = ctx.scale(400, 1500)
+    n = ctx.scale(300, 8000)
+    tie_bodies = ctx.scale(300, 1500)
     for i in range(n):
         tie_on = i < tie_bodies
         op = gen_operator(r)
@@ -984,7 +1032,7 @@ def run(ctx: fw.Ctx) -> int:
             addD('own', fw.Case(f'res_eqb jeqb (own_patch {dgo} {dsc} {psc} {mbody} {cops(ops)}) {exp}',
                                     {**data, 'ops': [list(o) for o in ops], 'patch': patch, 'outcome': okind},
                                     diag=f'own_patch {dgo} {dsc} {psc} {mbody} {cops(ops)}'))
-            if okind == 'ok' and after is not None and i % 3 == 0:
+            if okind == 'ok' and after is not None and i % 4 == 0:
                 # the model's essence of the body after the write (ties essence o merge, the subject of the theorem)
                 k1, e1 = op.essence(after)
                 exp = canon.cres(k1, canon.cj(e1) if k1 == 'ok' else None)
@@ -996,7 +1044,7 @@ def run(ctx: fw.Ctx) -> int:
 
         # ---- finalizers ----
         for name, before, fk, fb in check_finalizers(ctx, op, raw):
-            if i % 2:
+            if i % 4:
                 continue
             try:
                 exp = canon.cres(fk, canon.cj(fb) if fk == 'ok' else None)
@@ -1005,6 +1053,26 @@ def run(ctx: fw.Ctx) -> int:
                                         diag=f'{fn} {cq.cstr(FINALIZER)} {mbody}'))
             except cq.Unencodable:
                 skipped += 1
+
+        # ---- handlers' results (progression.deliver_results): a framework write confined to status.<handler id> ----
+        if i % 2 == 0:
+            outs, p0 = check_results(ctx, op, raw, r, G)
+            try:
+                kres, pres = outs
+                couts = cq.clist(cq.cpair(cq.cstr(h), cq.copt(canon.cj(v)) if ok_ else 'None') for h, ok_, v in p0['outcomes'])
+                exp = canon.cres(kres, canon.cj(pres) if kres == 'ok' else None)
+                addD('results', fw.Case(f"res_eqb jeqb (deliver_results {couts} {canon.cj(p0['patch_in'])}) {exp}",
+                                        {**p0, 'patch_out': pres, 'outcome': kres},
+                                        diag=f"deliver_results {couts} {canon.cj(p0['patch_in'])}"))
+            except cq.Unencodable:
+                skipped += 1
+
+        # ---- observation: a handler's field running through a non-mapping value (TypeError in dicts.cherrypick) ----
+        for f in op.fields:
+            fk = field_path_kind(raw, f)
+            ctx.count('field_path', fk)
+            if fk == 'through-nonmapping':
+                ctx.count('observation:field-through-nonmapping', 'build raises ' + kind if kind != 'ok' else 'build ok')
 
         # ---- the other statements, evaluated on the implementation ----
         check_system(ctx, op, raw, r)
